@@ -553,11 +553,28 @@ def _gen_rechunk(tp, a):
         return None
     from gen.programs import gen_chunks as gc
 
-    return dict(chunks=gc(tp, a.shape))
+    p = dict(chunks=gc(tp, a.shape))
+    if tp.coin(1, 3):
+        p["allow_irregular"] = False
+    if tp.coin(1, 4):
+        p["min_mem"] = tp.choice([0, 16, 64, 256, 1024])
+    return p
 
 
-reg("rechunk", 1, _gen_rechunk, lambda a, p: a,
-    lambda a, p: a.rechunk(tuple(p["chunks"])), weight=6, tags=("rechunk",))
+def _cu_rechunk(a, p):
+    from cubed.core.ops import rechunk
+
+    kw = {}
+    if "allow_irregular" in p:
+        kw["allow_irregular"] = p["allow_irregular"]
+    if "min_mem" in p:
+        kw["min_mem"] = p["min_mem"]
+    if kw:
+        return rechunk(a, tuple(p["chunks"]), **kw)
+    return a.rechunk(tuple(p["chunks"]))
+
+
+reg("rechunk", 1, _gen_rechunk, lambda a, p: a, _cu_rechunk, weight=6, tags=("rechunk",))
 
 
 def _gen_merge_chunks(tp, a):
@@ -793,7 +810,7 @@ def _gen_vecdot(tp, a, b):
     return dict(axis=-1)
 
 
-reg("vecdot", 2, _gen_vecdot, lambda a, b, p: (a * b).sum(axis=-1),
+reg("vecdot", 2, _gen_vecdot, lambda a, b, p: np.vecdot(a, b, axis=-1),
     lambda a, b, p: _xp().vecdot(a, b, axis=-1), weight=2, tags=("linalg",))
 
 reg("outer", 2, lambda tp, a, b: {} if a.ndim == 1 and b.ndim == 1 and _isnum(a) and _isnum(b) and _np_result_ok(a, b) and _finite(a, b) else None,
